@@ -397,6 +397,22 @@ theorem determine_sort_after_deps (reg : Reg) (registered : Comp → Bool) (rank
   have hne : d ≠ c := by intro e; have := hr c d hd; rw [e] at this; omega
   exact (hb d (((h2 c ds hds).2 d).mpr hd) hne).2
 
+/-- a dependency added LATE (`dr.add_dependency(c, d)` between two registered components): every graph built afterwards
+from a root that reaches `c` has `d` as a key, has it in the entry of `c`, and sorts it before `c` — nothing computed
+before the call may stand in for the walk -/
+theorem late_dependency_in_graph (reg : Reg) (registered : Comp → Bool) (rank : Comp → Nat) (c d : Comp)
+    (hr : ∀ p x, x ∈ addDep reg c d p → rank x < rank p) (fuel : Nat) (root : Comp) (hf : rank root < fuel)
+    (g : Graph) (h : getDependencyGraph (addDep reg c d) registered fuel root = some g)
+    (hc : Reach (addDep reg c d) root c)
+    (pick : List Comp → List Comp) (hp : ∀ l, (pick l).Perm l) (o : List Comp) (ho : toposort pick g = some o) :
+    d ∈ g.keys ∧ (∃ ds, (c, ds) ∈ g ∧ d ∈ ds) ∧ Before d c o := by
+  have hd : d ∈ addDep reg c d c := by simp [addDep]
+  obtain ⟨_, h2, _⟩ := depgraph_edges (addDep reg c d) registered rank hr fuel root hf g h
+  obtain ⟨ds, hds, hiff⟩ := h2 c hc
+  obtain ⟨ds', hds', _⟩ := h2 d (reach_step hc hd)
+  refine ⟨(mem_keys_iff g d).mpr ⟨ds', hds'⟩, ⟨ds, hds, (hiff d).mpr hd⟩, ?_⟩
+  exact ((walk_sort_after_deps (addDep reg c d) registered rank hr fuel root hf g h pick hp o ho).2 c hc).2 d hd
+
 /-! non-vacuity: a diamond with a shared leaf (0), a component without dependencies, an unregistered one -/
 private def exReg : Reg := fun c => if c = 3 then [2, 1, 0] else if c = 2 then [0, 1] else if c = 1 then [0] else []
 private def exRegd : Comp → Bool := fun c => c < 5
@@ -411,6 +427,9 @@ example : levels id 4 (prepare [(3, [2, 1, 0]), (2, [0, 1]), (1, [0]), (0, [])])
 example : levelOf 2 [[0], [1], [2], [3]] = some 2 ∧ levelOf 0 [[0], [1], [2], [3]] = some 0 := by decide
 example : determineList exReg exRegd 4 [1, 2] = some [(1, [0]), (0, []), (2, [0, 1])] := by decide
 example : determineList exReg exRegd 4 [1, 7] = none := by decide
+-- late dependency 4 of component 2 (4 was registered, with no dependencies): the graph of 3 now has it
+example : (getDependencyGraph (addDep exReg 2 4) exRegd 6 3).map (fun g => (g.keys.contains 4, g.contains (2, [0, 1, 4]))) = some (true, true) := by decide
+example : ((getDependencyGraph (addDep exReg 2 4) exRegd 6 3).bind (toposort id)).map (fun o => decide (o.idxOf 4 < o.idxOf 2)) = some true := by decide
 
 /-! ### non-vacuity -/
 
